@@ -10,7 +10,7 @@ LEAN_MODULES = ['BR.Props.C11', 'BR.Props.C11Body', 'BR.Props.C11Carry']
 THEOREMS = ['BR.C11.cross_top_eq_cross_bottom', 'BR.C11.leg_wrench', 'BR.C11.sumActuator_eq_neg', 'BR.C11.statics_balance', 'BR.C11.row_dot_twist',
             'BR.C11.hasDerivAt_norm3_sub', 'BR.C11.invJac_is_length_derivative',
             'BR.C11B.dot_mulVec_transpose', 'BR.C11B.bodyForces_eq',
-            'BR.C11C.carryWrench_force', 'BR.C11C.shaftWrenches_force', 'BR.C11C.pointTowards_on_leg']
+            'BR.C11C.carryWrench_force', 'BR.C11C.carryWrench_moment', 'BR.C11C.shaftWrenches_force', 'BR.C11C.pointTowards_on_leg']
 TIE = ('The rows [q x n, n] of SP.inverseJacobian, the wrench sum of SP.sumActuatorWrenches and the transpose map invJ^T tau are modelled in lean/BR/Model/SP.lean; their Float instances are compared '
        'with the real methods on the joint positions the real platform publishes (1e-10). The derivative, equilibrium, body-frame and mass-carrying clauses are also evaluated directly on the real SP '
        '(Richardson central differences of independently computed leg lengths; independent wrench bookkeeping).')
@@ -21,7 +21,7 @@ TRUSTED = ['Lean 4.33 kernel + Mathlib v4.33 (axioms: propext, Classical.choice,
 ASSUMPTIONS = ['geometries, placements and poses of C09 with cond(invJ) <= 1e4', 'derivative to 1e-6 (Richardson, steps 2e-4/1e-4), equilibrium to 1e-8 relative to the wrench norm']
 RULE = ('random geometries x {plain at a random base, moved, re-spun and moved, small platform far (up to 12) from the origin with cond 1e3..1e4} x in-workspace relative poses accepted without corrective action x random twists and wrenches (components up to 1 and 10); '
         'distinct = distinct (geometry, placement, pose); non-trivial = non-vertical wrench away from the origin')
-SAMPLED = ['staticForcesInvBody inverts staticForcesBody (pseudo-inverse oracle; the forward direction is a theorem for any Jacobian)', 'carryMassCalc: moment parts of the carried wrench (the force part, and the model of the bookkeeping compared with the real method, are theorem / correspondence)']
+SAMPLED = ['staticForcesInvBody inverts staticForcesBody (pseudo-inverse oracle; the forward direction is a theorem for any Jacobian)']
 
 
 def run(res, tier, seed, driver_ok):
